@@ -331,8 +331,59 @@ def check_C06(ctx):
                                    "for bit); Rust's integer formatting in radix 2/8/10/16 is used to project observed values"])
 
 
+# ------------------------------------------------------------------------------------------------
+# C09 / C10 (one machine: ReaderInput)
+# ------------------------------------------------------------------------------------------------
+C09_VERDICTS = {"error-differs", "value-differs", "reader-lends", "borrowed-not-verbatim", "verbatim-not-lent", "transformed-lent"}
+C10_VERDICTS = {"fault-swallowed", "drained-past-cap", "cap-ignored", "write-fault-swallowed", "not-a-prefix"}
+
+
+def reader_check(ctx, which):
+    q = ctx.quick()
+    run_mc(ctx, "MC_ReaderInput", dict(MaxChars=3 if q else 4, MaxBytes=7 if q else 9), ["InvExpected", "InvCap"], workers=8,
+           timeout=3000, label="MC_ReaderInput")
+    ctx.exhaustive = True
+    recs = ctx.path("recs.ndjson")
+    st = run_vh(ctx, ["c09", "--out", recs, "--seed", ctx.seed, "--thorough", 0 if q else 1], timeout=3000)
+    ctx.evaluations += st["records"]
+    ctx.distinct_nontrivial += st["nontrivial"] if which == "C09" else st["faults"]
+    ctx.samples += st["samples"]
+    mism = run_tv(ctx, "TV_ReaderInput", recs, timeout=3000)
+    mine = C09_VERDICTS if which == "C09" else C10_VERDICTS
+    own = [m for m in mism if isinstance(m[1], dict) and m[1].get("verdict") in mine]
+    other = len(mism) - len(own)
+    if other:
+        ctx.notes["mismatches_belonging_to_sibling_property"] = other
+    # keep replay files small: the record is inside detail.rec already
+    classify_mismatches(ctx, [(m[0], {"verdict": m[1]["verdict"], "rec": {k: v for k, v in m[1]["rec"].items() if k not in ("full", "received")}}, m[2], m[3]) for m in own],
+                        None, {}, "reader-path outcome differs from ReaderInput!Expected / in-memory entry point" if which == "C09"
+                        else "I/O fault, early EOF or size cap not reported (ReaderInput!MustFail), or writer fault swallowed")
+    if which == "C09":
+        rule = ("30 corpus documents (valid/invalid, ASCII and 2/3/4-byte characters, CRLF, anchors, multi-document; with and without "
+                "BOM) x chunk schedules (all 2^(n-1) compositions for inputs <= 10/14 bytes, 1-byte, fixed 2/3/5/7, random, a cut inside "
+                "every multi-byte character) x from_reader / read / with_deserializer_from_reader, compared with from_str / from_multiple; "
+                "39 borrowing cases; non-trivial = records whose text has a multi-byte character")
+    else:
+        rule = ("every byte position k of every corpus document as fault position (4 error kinds) and as clean early EOF, x 2 chunkings x "
+                "from_reader / read / an error-swallowing target; caps 0,1,n-3..n+1,n+100; a 400 KB input with small caps (bytes pulled); "
+                "writer: every write call and every byte offset as failure point; non-trivial = fault records")
+    return finish(ctx, "model_checking" if which == "C09" else "fault_enumeration", rule,
+                  ASSUME_COMMON + ["inputs whose last line is an unterminated %directive are excluded here (known finding C01-directive-eof-hang)",
+                                   "buffering allowance for bytes pulled past the cap: 32 KiB"])
+
+
+def check_C09(ctx):
+    return reader_check(ctx, "C09")
+
+
+def check_C10(ctx):
+    return reader_check(ctx, "C10")
+
+
 CHECKS = {
     "C02": check_C02,
+    "C09": check_C09,
+    "C10": check_C10,
     "C06": check_C06,
     "C05": check_C05,
     "C11": check_C11,
